@@ -875,3 +875,20 @@ def r_nocfg(ctx, rule, op, what):
     ctx.ob(rule, "%s: channel effects independent of the configuration" % op, bad == 0, "",
            "%d effect sites, %d configuration sources seen on its paths" % (n, len(by_pol)))
     ctx.require(rule, n, 1, "channel effects inside %s" % op)
+
+
+def config_option(t):
+    """(key, default) if t is an option read from makeService's configuration
+    mapping -- config[key] / config.get(key[, default]), possibly converted
+    with float() / int() -- else None.  Such a value is fixed by the command
+    line: the same for a restarted server, constant while the process runs."""
+    while t[0] == "call" and t[1] in ("float", "int") and len(t[2]) == 1:
+        t = t[2][0]
+    if t[0] == "sub" and t[1][0] == "param" and t[1][1] in ("config", "options") and \
+            t[2][0] == "const":
+        return (t[2][1], None)
+    if t[0] == "call" and t[1] == ".get" and len(t[2]) >= 2 and t[2][0][0] == "param" and \
+            t[2][0][1] in ("config", "options") and t[2][1][0] == "const":
+        d = t[2][2] if len(t[2]) >= 3 else ("const", None)
+        return (t[2][1][1], d)
+    return None
